@@ -131,7 +131,7 @@ func failureClass(exp, got string) string {
 	}
 }
 
-func (c includeCase) monitor(m *lib.Monitor, code string) {
+func (c includeCase) monitor(m sink, code string) {
 	p := parsePredTok(c.Pred)
 	f := splitComma(c.Change)
 	id, kind, t, old, new, seed, last := f[0], f[1], f[2], f[3], f[4], f[5], f[6]
